@@ -18,6 +18,10 @@ annotations["nginx.ingress.kubernetes.io/canary-by-header-value"] = nil
 annotations["mse.ingress.kubernetes.io/canary-by-query"] = nil
 annotations["mse.ingress.kubernetes.io/canary-by-query-pattern"] = nil
 annotations["mse.ingress.kubernetes.io/canary-by-query-value"] = nil
+annotations["nginx.ingress.kubernetes.io/canary-by-query"] = nil
+annotations["nginx.ingress.kubernetes.io/canary-by-query-pattern"] = nil
+annotations["nginx.ingress.kubernetes.io/canary-by-query-value"] = nil
+annotations["mse.ingress.kubernetes.io/request-header-control-update"] = nil
 annotations["nginx.ingress.kubernetes.io/canary-weight"] = nil
 if ( obj.weight ~= "-1" )
 then
